@@ -54,6 +54,7 @@ func vDone()
 func vParam(name string, def int) int
 func vGo(f func())
 func vWait()
+func vSchedBound(n int)
 `
 
 type Loaded struct {
